@@ -199,7 +199,7 @@ class Driver:
     def trace(self, **extra):
         t = {"cls": self.cfg["cls"], "p": self.cfg["p"], "N": self.cfg["N"],
              "passes": self.cfg["passes"], "ctor": self.ctor, "hung": 0, "capped": 0,
-             "sib": 0, "sibo": self.cfg.get("sibo", 0), "ev": self.ev}
+             "sib": 0, "sibo": self.cfg.get("sibo", 0), "siblen": 0, "ev": self.ev}
         if "grp" in self.cfg:
             t["grp"] = self.cfg["grp"]
         if "calls" in self.cfg:
@@ -297,7 +297,7 @@ def _work(cfg):
         return canonical(cfg)
     except _Hang:
         return {"cls": cfg["cls"], "p": cfg["p"], "N": cfg["N"], "passes": cfg["passes"],
-                "ctor": 0, "hung": 1, "capped": 0, "sib": 0, "sibo": cfg.get("sibo", 0), "ev": []}
+                "ctor": 0, "hung": 1, "capped": 0, "sib": 0, "sibo": cfg.get("sibo", 0), "siblen": 0, "ev": []}
     except BaseException as e:  # machinery failure, reported by the caller
         return {"machinery": repr(e), "cfg": cfg}
     finally:
